@@ -2,7 +2,7 @@
 import re
 from lib import fw
 
-MODULES = ["SunriseVerif.Props.C01", "SunriseVerif.Props.C01DA"]
+MODULES = ["SunriseVerif.Props.C01", "SunriseVerif.Props.C01DA", "SunriseVerif.Props.C01Gauge"]
 
 
 def feats(f):
